@@ -681,6 +681,10 @@ func (h *H) Run(cc core.Cfg, sim *simrt.Sim) *core.Outcome {
 			}
 		case strings.Contains(d, "stat error") && strings.Contains(d, "file already closed"):
 			sig = "died/deleted-job-resumed-with-closed-file"
+		case strings.Contains(d, "done jobs counter less than zero") && strings.Contains(d, "deleteJobAndUnlock"):
+			// maintenance unlocks the job before it removes it from the table; a notification that had looked the job up
+			// resumes it in between (one decrement of the done counter), then the deletion decrements it again
+			sig = "died/job-resumed-while-being-deleted/done-jobs-counter-negative"
 		case strings.Contains(d, "can't load offsets"):
 			sig = "died/cannot-load-offsets"
 		}
